@@ -1,3 +1,236 @@
-import GambitV.Model.Jaccard
+import GambitV.Lemmas.Jaccard
+import Mathlib.Algebra.Order.Field.Rat
+import Mathlib.Algebra.Order.Field.Basic
+import Mathlib.Data.Nat.Cast.Order.Ring
+import Mathlib.Tactic.Linarith
+import Mathlib.Tactic.Positivity
+import Mathlib.Tactic.Ring
+
+/-!
+# C15 — the Jaccard distance is a metric on finite sets, and adding a common element shrinks it
+
+Part A: the exact distance `|A ∆ B| / |A ∪ B|` (with `0/0 := 0`) on `Finset ℕ`, in `ℚ`.
+-/
 namespace GambitV.C15
+open GambitV
+
+/-- Exact Jaccard distance. -/
+def dist (A B : Finset ℕ) : ℚ :=
+  if (A ∪ B).card = 0 then 0 else ((symmDiff A B).card : ℚ) / ((A ∪ B).card : ℚ)
+
+theorem symmDiff_subset_union (A B : Finset ℕ) : symmDiff A B ⊆ A ∪ B := by
+  intro x hx
+  simp only [Finset.mem_symmDiff, Finset.mem_union] at hx ⊢
+  tauto
+
+theorem card_symmDiff_le (A B : Finset ℕ) : (symmDiff A B).card ≤ (A ∪ B).card :=
+  Finset.card_le_card (symmDiff_subset_union A B)
+
+theorem card_symmDiff_add_inter (A B : Finset ℕ) :
+    (symmDiff A B).card + (A ∩ B).card = (A ∪ B).card := by
+  have h1 := card_symmDiff_add A B
+  have h2 := Finset.card_union_add_card_inter A B
+  omega
+
+theorem dist_of_pos {A B : Finset ℕ} (h : (A ∪ B).card ≠ 0) :
+    dist A B = ((symmDiff A B).card : ℚ) / ((A ∪ B).card : ℚ) := by
+  simp [dist, h]
+
+theorem dist_of_zero {A B : Finset ℕ} (h : (A ∪ B).card = 0) : dist A B = 0 := by
+  simp [dist, h]
+
+/-- B1. -/
+theorem dist_mem_unit (A B : Finset ℕ) : 0 ≤ dist A B ∧ dist A B ≤ 1 := by
+  by_cases h : (A ∪ B).card = 0
+  · rw [dist_of_zero h]; exact ⟨le_refl _, zero_le_one⟩
+  · rw [dist_of_pos h]
+    have hpos : (0 : ℚ) < ((A ∪ B).card : ℚ) := by exact_mod_cast Nat.pos_of_ne_zero h
+    refine ⟨div_nonneg (Nat.cast_nonneg _) (le_of_lt hpos), ?_⟩
+    rw [div_le_one hpos]
+    exact_mod_cast card_symmDiff_le A B
+
+/-- B2. -/
+theorem dist_eq_zero_iff (A B : Finset ℕ) : dist A B = 0 ↔ A = B := by
+  by_cases h : (A ∪ B).card = 0
+  · rw [dist_of_zero h]
+    have hu : A ∪ B = ∅ := Finset.card_eq_zero.mp h
+    have hA : A = ∅ := (Finset.union_eq_empty.mp hu).1
+    have hB : B = ∅ := (Finset.union_eq_empty.mp hu).2
+    simp [hA, hB]
+  · rw [dist_of_pos h]
+    have hpos : ((A ∪ B).card : ℚ) ≠ 0 := by exact_mod_cast h
+    rw [div_eq_zero_iff]
+    constructor
+    · rintro (h0 | h0)
+      · have : (symmDiff A B).card = 0 := by exact_mod_cast h0
+        exact symmDiff_eq_bot.mp (Finset.card_eq_zero.mp this)
+      · exact absurd h0 hpos
+    · rintro rfl
+      left; simp
+
+/-- B3. -/
+theorem dist_eq_one_iff (A B : Finset ℕ) :
+    dist A B = 1 ↔ (Disjoint A B ∧ (A ∪ B).Nonempty) := by
+  by_cases h : (A ∪ B).card = 0
+  · rw [dist_of_zero h]
+    have hu : A ∪ B = ∅ := Finset.card_eq_zero.mp h
+    constructor
+    · intro h01; exact absurd h01 zero_ne_one
+    · rintro ⟨_, hne⟩; rw [hu] at hne; exact absurd hne Finset.not_nonempty_empty
+  · rw [dist_of_pos h]
+    have hpos : ((A ∪ B).card : ℚ) ≠ 0 := by exact_mod_cast h
+    have hne : (A ∪ B).Nonempty := Finset.card_pos.mp (Nat.pos_of_ne_zero h)
+    rw [div_eq_one_iff_eq hpos]
+    have hk := card_symmDiff_add_inter A B
+    constructor
+    · intro he
+      have he' : (symmDiff A B).card = (A ∪ B).card := by exact_mod_cast he
+      have hi : (A ∩ B).card = 0 := by omega
+      exact ⟨Finset.disjoint_iff_inter_eq_empty.mpr (Finset.card_eq_zero.mp hi), hne⟩
+    · rintro ⟨hd, _⟩
+      have hi : (A ∩ B).card = 0 :=
+        Finset.card_eq_zero.mpr (Finset.disjoint_iff_inter_eq_empty.mp hd)
+      have : (symmDiff A B).card = (A ∪ B).card := by omega
+      exact_mod_cast this
+
+/-- B4. -/
+theorem dist_symm (A B : Finset ℕ) : dist A B = dist B A := by
+  unfold dist
+  rw [symmDiff_comm A B, Finset.union_comm A B]
+
+/-! ### Triangle inequality -/
+
+/-- Key counting fact: `|A ∆ C| + |B \ (A ∪ C)| ≤ |A ∆ B| + |B ∆ C|`. -/
+theorem card_symmDiff_add_sdiff_le (A B C : Finset ℕ) :
+    (symmDiff A C).card + (B \ (A ∪ C)).card ≤ (symmDiff A B).card + (symmDiff B C).card := by
+  have hdisj : Disjoint (symmDiff A C) (B \ (A ∪ C)) := by
+    rw [Finset.disjoint_left]
+    intro x hx hx'
+    simp only [Finset.mem_symmDiff, Finset.mem_sdiff, Finset.mem_union] at hx hx'
+    tauto
+  rw [← Finset.card_union_of_disjoint hdisj]
+  refine le_trans (Finset.card_le_card ?_) (Finset.card_union_le _ _)
+  intro x hx
+  simp only [Finset.mem_symmDiff, Finset.mem_sdiff, Finset.mem_union] at hx ⊢
+  tauto
+
+theorem card_union_add_sdiff (A B C : Finset ℕ) :
+    (A ∪ C).card + (B \ (A ∪ C)).card = (A ∪ B ∪ C).card := by
+  have hdisj : Disjoint (A ∪ C) (B \ (A ∪ C)) := Finset.disjoint_sdiff
+  rw [← Finset.card_union_of_disjoint hdisj]
+  congr 1
+  ext x
+  simp only [Finset.mem_sdiff, Finset.mem_union]
+  tauto
+
+/-- Pure arithmetic core of the triangle inequality. -/
+theorem triangle_arith {x y r p q u v : ℚ} (_hx : 0 ≤ x) (hxy : x ≤ y) (hy : 0 < y) (hr : 0 ≤ r)
+    (hp : 0 ≤ p) (hq : 0 ≤ q) (hu : 0 < u) (hv : 0 < v)
+    (huU : u ≤ y + r) (hvU : v ≤ y + r) (hsum : x + r ≤ p + q) :
+    x / y ≤ p / u + q / v := by
+  have hU : 0 < y + r := by linarith
+  have h1 : x / y ≤ (x + r) / (y + r) := by
+    rw [div_le_div_iff₀ hy hU]
+    nlinarith
+  have h2 : (x + r) / (y + r) ≤ (p + q) / (y + r) := by
+    exact div_le_div_of_nonneg_right hsum (le_of_lt hU)
+  have h3 : p / (y + r) ≤ p / u := div_le_div_of_nonneg_left hp hu huU
+  have h4 : q / (y + r) ≤ q / v := div_le_div_of_nonneg_left hq hv hvU
+  have h5 : (p + q) / (y + r) = p / (y + r) + q / (y + r) := add_div _ _ _
+  linarith
+
+/-- B5. The Jaccard distance satisfies the triangle inequality. -/
+theorem dist_triangle (A B C : Finset ℕ) : dist A C ≤ dist A B + dist B C := by
+  by_cases hAC : (A ∪ C).card = 0
+  · rw [dist_of_zero hAC]
+    exact add_nonneg (dist_mem_unit A B).1 (dist_mem_unit B C).1
+  by_cases hAB : (A ∪ B).card = 0
+  · have hu : A ∪ B = ∅ := Finset.card_eq_zero.mp hAB
+    have hA : A = ∅ := (Finset.union_eq_empty.mp hu).1
+    have hB : B = ∅ := (Finset.union_eq_empty.mp hu).2
+    subst hA; subst hB
+    have := (dist_mem_unit ∅ ∅).1
+    linarith
+  by_cases hBC : (B ∪ C).card = 0
+  · have hu : B ∪ C = ∅ := Finset.card_eq_zero.mp hBC
+    have hB : B = ∅ := (Finset.union_eq_empty.mp hu).1
+    have hC : C = ∅ := (Finset.union_eq_empty.mp hu).2
+    subst hB; subst hC
+    have := (dist_mem_unit ∅ ∅).1
+    linarith
+  rw [dist_of_pos hAC, dist_of_pos hAB, dist_of_pos hBC]
+  have k1 := card_symmDiff_add_sdiff_le A B C
+  have k2 := card_union_add_sdiff A B C
+  have k3 : (A ∪ B).card ≤ (A ∪ B ∪ C).card :=
+    Finset.card_le_card Finset.subset_union_left
+  have k4 : (B ∪ C).card ≤ (A ∪ B ∪ C).card := by
+    apply Finset.card_le_card
+    intro x hx
+    simp only [Finset.mem_union] at hx ⊢
+    tauto
+  have k5 := card_symmDiff_le A C
+  apply triangle_arith (r := ((B \ (A ∪ C)).card : ℚ))
+  · exact Nat.cast_nonneg _
+  · exact_mod_cast k5
+  · exact_mod_cast Nat.pos_of_ne_zero hAC
+  · exact Nat.cast_nonneg _
+  · exact Nat.cast_nonneg _
+  · exact Nat.cast_nonneg _
+  · exact_mod_cast Nat.pos_of_ne_zero hAB
+  · exact_mod_cast Nat.pos_of_ne_zero hBC
+  · have : (A ∪ B).card ≤ (A ∪ C).card + (B \ (A ∪ C)).card := by omega
+    exact_mod_cast this
+  · have : (B ∪ C).card ≤ (A ∪ C).card + (B \ (A ∪ C)).card := by omega
+    exact_mod_cast this
+  · exact_mod_cast k1
+
+/-! ### Adding a common element -/
+
+theorem symmDiff_insert_insert {x : ℕ} {A B : Finset ℕ} (hxA : x ∉ A) (hxB : x ∉ B) :
+    symmDiff (insert x A) (insert x B) = symmDiff A B := by
+  ext y
+  simp only [Finset.mem_symmDiff, Finset.mem_insert]
+  by_cases hy : y = x
+  · subst hy; tauto
+  · tauto
+
+theorem union_insert_insert (x : ℕ) (A B : Finset ℕ) :
+    insert x A ∪ insert x B = insert x (A ∪ B) := by
+  ext y
+  simp only [Finset.mem_union, Finset.mem_insert]
+  tauto
+
+/-- B6. Adding a common new element strictly decreases the distance of two different sets. -/
+theorem dist_add_common_lt {x : ℕ} {A B : Finset ℕ} (hxA : x ∉ A) (hxB : x ∉ B) (hne : A ≠ B) :
+    dist (insert x A) (insert x B) < dist A B := by
+  have hu : (A ∪ B).card ≠ 0 := by
+    intro h
+    have hu : A ∪ B = ∅ := Finset.card_eq_zero.mp h
+    exact hne (((Finset.union_eq_empty.mp hu).1).trans ((Finset.union_eq_empty.mp hu).2).symm)
+  have hxU : x ∉ A ∪ B := by simp [hxA, hxB]
+  have hcard : (insert x A ∪ insert x B).card = (A ∪ B).card + 1 := by
+    rw [union_insert_insert, Finset.card_insert_of_notMem hxU]
+  have hu' : (insert x A ∪ insert x B).card ≠ 0 := by omega
+  rw [dist_of_pos hu, dist_of_pos hu', symmDiff_insert_insert hxA hxB, hcard]
+  have hs : 0 < (symmDiff A B).card := by
+    apply Nat.pos_of_ne_zero
+    intro h0
+    exact hne (symmDiff_eq_bot.mp (Finset.card_eq_zero.mp h0))
+  have hsq : (0 : ℚ) < ((symmDiff A B).card : ℚ) := by exact_mod_cast hs
+  have huq : (0 : ℚ) < ((A ∪ B).card : ℚ) := by exact_mod_cast Nat.pos_of_ne_zero hu
+  push_cast
+  exact div_lt_div_of_pos_left hsq huq (by linarith)
+
+theorem dist_add_common_eq (x : ℕ) (A : Finset ℕ) : dist (insert x A) (insert x A) = 0 :=
+  (dist_eq_zero_iff _ _).mpr rfl
+
+/-! ### Non-vacuity -/
+
+example : dist {1, 2, 3} {2, 3, 4} = 1 / 2 := by
+  have h1 : (({1, 2, 3} : Finset ℕ) ∪ {2, 3, 4}).card = 4 := by decide
+  have h2 : (symmDiff ({1, 2, 3} : Finset ℕ) {2, 3, 4}).card = 2 := by decide
+  rw [dist_of_pos (by omega), h1, h2]; norm_num
+
+example : dist {1} {2} = 1 := (dist_eq_one_iff _ _).mpr ⟨by decide, by decide⟩
+
 end GambitV.C15
